@@ -83,8 +83,8 @@ chk('C10', 'model_checking',
     'Nudge.tla judges raw route R and displayed route D of every connector of a scene: D keeps R\'s first and last point, has no more segments, still visits every checkpoint; interior segments of two '
     'connectors without a common endpoint are not collinear-overlapping when the channel between the nearest immovable things (buffered obstacle sides, first/last segments) has room; parallel interior '
     'segments are coincident or at least d/10 apart. Scenes: corridor family (width 0..40 x 2..4 connectors x option/distance combinations), seeded random scenes with checkpoints, pin-attached families replayed through the object-level harness (segments hugging an obstacle side next to a fixed end segment; two checkpoints on one stretch followed by a z-bend that nudging centres), rows of aligned checkpoints.',
-    'Known findings F13 (option moves endpoints/checkpoints), F11/F25/F34 (nudging assertions; F11 also kills the process), F26 (checkpoint excursion dropped), F35 (shared path ending at one connector\'s endpoint with nudgeSharedPathsWithCommonEndPoint off). Channel = common free interval of the whole sharing segments, room for k+1 spacings; segments carrying a checkpoint count as immovable. The reduced nudging distance is not observable: distances below d/10 are reported as observations only (DESIGN 10).',
-    'TLA+ declarative nudging specification; record validation of raw/displayed route pairs', '4/C10')
+    'Known findings F13 (option moves endpoints/checkpoints), F11/F25/F34 (nudging assertions; F11 also kills the process), F26 (checkpoint excursion dropped), F35 (shared path ending at one connector\'s endpoint with nudgeSharedPathsWithCommonEndPoint off). Channel = common free interval of the whole sharing segments, room for k+1 spacings; segments carrying a checkpoint count as immovable. The reduced nudging distance is not observable: distances below d/10 are reported as observations only (DESIGN 10). Extra stage beyond the statement: Simplify.tla -- Polygon::simplify() with the live checkpoint cache that nudging reads (design model of the loop checked by TLC, every enumerated instance replayed through the real function and judged by the same postcondition); it found F67, repaired by fix: commit 98eb188.',
+    'TLA+ declarative nudging specification + design model of Polygon::simplify (TLC); record validation of raw/displayed route pairs; TLC-enumerated instances replayed', '4/C10')
 
 chk('C15', 'model_checking',
     'Lifecycle.tla models the ownership protocol of libavoid at object granularity (shapes, pins, junctions, connectors: unborn/queued/live/dying/freed; connector ends, pins and hyperedge registrations as references; '
